@@ -13,6 +13,7 @@ package codecparams
 
 //@ func Marshal
 //@   props C09 C16
+//@   requires anylock()
 //@   ensures result == "" || hasprefix(result, "av01.") || hasprefix(result, "vp09.") || hasprefix(result, "hvc1.") || hasprefix(result, "avc1.") || hasprefix(result, "mp4a.40.") || result == "opus"
 //@   ensures [C16] result in /(av01\.{N}\.{Z}[MH]\.{Z}\.[01]\.[01][01]{N}\.({Z}\.{Z}\.{Z}\.[01]|01\.01\.01\.0)|vp09\.{Z}\.10\.{Z}|hvc1\.(.|\n)*|avc1\.(.|\n)*|opus|mp4a\.40\.{N})?/
 //@ end
